@@ -163,6 +163,15 @@ contract(
         ("other-slots", f"forall(s, implies(s != some(self.currentSlotIdx), used({_br_rs}, s) == old(used({_br_rs}, s)) and "
                         f"usage({_br_rs}, s) == old(usage({_br_rs}, s))))"),
         ("filled", f"implies(result > 0, used({_br_rs}, some(self.currentSlotIdx)) == PG(self.project))"),
+        ("lists", f"forall(s, forall(t, implies(s != t and s in {_br_rs}.slotTaskUsage and t in {_br_rs}.slotTaskUsage, "
+                  f"{_br_rs}.slotTaskUsage[s] != {_br_rs}.slotTaskUsage[t])))"),
+        ("board-size", f"{_br_rs}.scoreboard == old({_br_rs}.scoreboard) and len(some({_br_rs}.scoreboard).sb) == old(len(some({_br_rs}.scoreboard).sb))"),
+        # the task's own entry: exactly one, last in the slot, when the booking succeeded
+        ("entry", f"implies(result > 0, some(self.currentSlotIdx) in {_br_rs}.slotTaskUsage and len({_br_rs}.slotTaskUsage[some(self.currentSlotIdx)]) >= 1 and "
+                  f"{_br_rs}.slotTaskUsage[some(self.currentSlotIdx)][len({_br_rs}.slotTaskUsage[some(self.currentSlotIdx)]) - 1][0] == self.property and "
+                  f"{_br_rs}.slotTaskUsage[some(self.currentSlotIdx)][len({_br_rs}.slotTaskUsage[some(self.currentSlotIdx)]) - 1][1] > 0 and "
+                  f"result == {_br_rs}.slotTaskUsage[some(self.currentSlotIdx)][len({_br_rs}.slotTaskUsage[some(self.currentSlotIdx)]) - 1][1] / 3600 * "
+                  f"ite(attr(resource, 'efficiency', self.scenarioIdx) is None or some(attr(resource, 'efficiency', self.scenarioIdx)) == 0, 1, some(attr(resource, 'efficiency', self.scenarioIdx))))"),
         ("others", f"forall(o, 'Ref:ResourceScenario', implies(o != {_br_rs} and old(RSsep(o, {_br_rs})), LedgerSame(o) and RSsep(o, {_br_rs})))"),
         # C05: a booking happens only while the task's own and inherited limits admit it
         ("task-limits", "implies(result > 0, forall(j, implies(chain_in(self.property, j) and TLimOn(chain(self.property, j), self.scenarioIdx), "
@@ -178,5 +187,139 @@ contract(
         "self.limitsOk": ("contract", TS + "::TaskScenario.limitsOk"),
     },
     static={"hasattr(self, 'slotStartOffset')": True},
-    modifies=[m.replace("self.", f"{_br_rs}.").replace("@self", f"@{_br_rs}") for m in L.BOOK_MODIFIES],
+    modifies=[m.replace("sb_idx", "some(self.currentSlotIdx)").replace("self.slot", f"{_br_rs}.slot").replace("self.first", f"{_br_rs}.first")
+              .replace("self.last", f"{_br_rs}.last").replace("some(self.scoreboard)", f"some({_br_rs}.scoreboard)").replace("@self", f"@{_br_rs}")
+              for m in L.BOOK_MODIFIES],
+)
+
+# ---- the world a task scenario books into: every resource is prepared, consistent and separated from the others --
+ghost("ResOk", ["r", "ts"],
+      "r.data is not None and 0 <= ts.scenarioIdx and ts.scenarioIdx < len(some(r.data)) and some(r.data)[ts.scenarioIdx] is not None and "
+      "RSof(r, ts.scenarioIdx).scoreboard is not None and RSof(r, ts.scenarioIdx).project == ts.project and "
+      "RSof(r, ts.scenarioIdx).property == r and RSof(r, ts.scenarioIdx).scenarioIdx == ts.scenarioIdx and "
+      "some(ts.currentSlotIdx) < len(some(RSof(r, ts.scenarioIdx).scoreboard).sb) and "
+      "Ledger(RSof(r, ts.scenarioIdx)) and ListsDistinct(RSof(r, ts.scenarioIdx)) and "
+      "NodeLimWf(r, ts.scenarioIdx) and AncLimWf(r, ts.scenarioIdx) and "
+      "(attr(r, 'efficiency', ts.scenarioIdx) is None or some(attr(r, 'efficiency', ts.scenarioIdx)) >= 0)")
+ghost("World", ["ts"],
+      "forall(r, 'Ref:Resource', ResOk(r, ts)) and "
+      "forall(a, 'Ref:Resource', forall(b, 'Ref:Resource', implies(a != b, RSof(a, ts.scenarioIdx) != RSof(b, ts.scenarioIdx) and "
+      "RSsep(RSof(a, ts.scenarioIdx), RSof(b, ts.scenarioIdx)))))")
+ghost("TaskOk", ["ts"],
+      "ts.currentSlotIdx is not None and 0 <= some(ts.currentSlotIdx) and "
+      "implies(ts.project.scoreboard is not None, some(ts.currentSlotIdx) < len(some(ts.project.scoreboard).sb)) and "
+      "PG(ts.project) >= 1 and ts.project.attributes['start'] is not None and "
+      "0 <= ts.slotStartOffset and ts.slotStartOffset < PG(ts.project) and ChainLimWf(ts.property, ts.scenarioIdx) and "
+      "ts.property.data is not None and ts.scenarioIdx < len(some(ts.property.data))")
+
+contract(
+    TS + "::TaskScenario._resolve_resource", props=["C03", "C15"],
+    params={"self": Ref("TaskScenario"), "alloc": Ref("Resource")}, ret=Opt(Ref("Resource")),
+    ensures=[("identity", "result is not None and some(result) == alloc")],
+    note="typed for allocations that are Resource objects (what the parser stores); the id-string branch is the "
+         "lookup checked under C15",
+)
+
+contract(
+    TS + "::TaskScenario._selectBestResources", props=["C03"],
+    params={"self": Ref("TaskScenario"), "primary_resources": ResList,
+            "alternative_resources": ResList, "effort": Real},
+    ret=ResList,
+    ensures=[
+        # C03: an allocation with alternatives books exactly one of the candidate lists
+        ("one-of", "result == primary_resources or result == alternative_resources or len(result) == 0"),
+        ("no-alternatives", "implies(len(alternative_resources) == 0 and len(primary_resources) > 0, result == primary_resources)"),
+    ],
+    calls={"self._estimateCompletionTime": ("pure", Opt(DT))},
+    static={"hasattr(self, '_selectedAlternative')": True},
+    modifies=["TaskScenario._selectedAlternative@self"],
+    note="_estimateCompletionTime is treated as a pure estimate (it reads availability only)",
+)
+
+_SEL = "some(self._selectedResources)"
+_BR_FRAME = ["$region:ResourceScenario.slotSecondsUsed", "$region:ResourceScenario.slotTaskUsage",
+             "$region:ResourceScenario.firstBookedSlots", "$region:ResourceScenario.lastBookedSlots",
+             "ResourceScenario._effort", "ResourceScenario.firstBookedSlot", "ResourceScenario.lastBookedSlot",
+             "$region:Scoreboard.sb", "$region:@duties", "Limit._dirty", "$region:Limit._scoreboard"]
+# last-booked facts that the final-slot release relies on
+ghost("JustBooked", ["ts"],
+      "ts._lastBookedResource is not None and "
+      "some(ts.currentSlotIdx) in MyRS(ts).slotTaskUsage and used(MyRS(ts), some(ts.currentSlotIdx)) == PG(ts.project) and "
+      "len(MyList(ts)) >= 1 and MyList(ts)[len(MyList(ts)) - 1][0] == ts.property and MyEntry(ts) > 0")
+
+contract(
+    TS + "::TaskScenario.bookResources", props=["C01", "C03", "C04", "C06"],
+    params={"self": Ref("TaskScenario")},
+    requires=[("task", "TaskOk(self)"), ("world", "World(self)"),
+              ("forward", "attr(self.property, 'forward', self.scenarioIdx) is not None"),
+              ("distinct", "implies(self._selectedResources is not None, forall(a, 0, len(some(self._selectedResources)), "
+                           "forall(b, 0, len(some(self._selectedResources)), implies(a != b, "
+                           "some(self._selectedResources)[a] != some(self._selectedResources)[b]))))"),
+              ("distinct-alloc", "implies(attr(self.property, 'allocate', self.scenarioIdx) is not None, "
+                                 "forall(a, 0, len(some(attr(self.property, 'allocate', self.scenarioIdx))), "
+                                 "forall(b, 0, len(some(attr(self.property, 'allocate', self.scenarioIdx))), implies(a != b, "
+                                 "some(attr(self.property, 'allocate', self.scenarioIdx))[a] != some(attr(self.property, 'allocate', self.scenarioIdx))[b]))))"),
+              ("effort", "self.doneEffort >= 0")],
+    assumes=anc_axioms_all("Resource") + L.anc_axioms("self.property"),
+    ensures=[
+        ("world", "World(self)"),
+        ("cursor-kept", "self.currentSlotIdx == old(self.currentSlotIdx) and self.slotStartOffset == old(self.slotStartOffset)"),
+        # C03: effort only ever grows, by what the booked slot yields
+        ("effort-monotone", "self.doneEffort >= old(self.doneEffort)"),
+        # C04/C06: the start is written on the first credit only, at the slot start plus the dependency offset
+        ("start-once", "implies(TStart(self.property, self.scenarioIdx) != old(TStart(self.property, self.scenarioIdx)), "
+                       "old(self.doneEffort) == 0 and self.doneEffort > 0 and some(attr(self.property, 'forward', self.scenarioIdx)) and "
+                       "TStart(self.property, self.scenarioIdx) is not None and "
+                       "secs(some(TStart(self.property, self.scenarioIdx))) == secs(PT(self.project, some(self.currentSlotIdx))) + self.slotStartOffset)"),
+        ("end-kept", "TEnd(self.property, self.scenarioIdx) == old(TEnd(self.property, self.scenarioIdx)) and "
+                     "attr(self.property, 'scheduled', self.scenarioIdx) == old(attr(self.property, 'scheduled', self.scenarioIdx))"),
+        # C01: when effort was credited, the last booked resource's slot is full and the task's entry sits last
+        ("just-booked", "implies(self.doneEffort > old(self.doneEffort), JustBooked(self))"),
+        # C03: the choice between primary and alternative resources is made once
+        ("selected-once", "implies(old(self._selectedResources) is not None, self._selectedResources == old(self._selectedResources))"),
+        ("selected-distinct", "implies(self._selectedResources is not None, forall(a, 0, len(some(self._selectedResources)), "
+                              "forall(b, 0, len(some(self._selectedResources)), implies(a != b, "
+                              "some(self._selectedResources)[a] != some(self._selectedResources)[b]))))"),
+    ],
+    calls={
+        "self._resolve_resource": ("contract", TS + "::TaskScenario._resolve_resource"),
+        "self._selectBestResources": ("contract", TS + "::TaskScenario._selectBestResources"),
+        "self.bookResource": ("contract", TS + "::TaskScenario.bookResource"),
+        "self.limitsOk": ("contract", TS + "::TaskScenario.limitsOk"),
+        "res_scenario.available": ("contract", RS + "::ResourceScenario.available"),
+        "res_scenario.prepareScheduling": ("havoc", NoneT, ["ResourceScenario.scoreboard"]),
+        "self.project.idxToDate": ("spec", ["self", "i"], "ite(self.attributes['start'] is None, None, PT(self, i))"),
+    },
+    static={"hasattr(self, '_selectedResources')": True, "hasattr(self, '_lastBookedResource')": True,
+            "hasattr(self, 'slotStartOffset')": True},
+    no_merge=["effort_gained > 0", "not hasattr(self, '_selectedResources') or self._selectedResources is None"],
+    loops={
+        2: {"inv": [("copy", "len(primary_resources) == _i and forall(k, 0, _i, primary_resources[k] == alloc_data[k])"),
+                    ("untouched", "self._selectedResources == old(self._selectedResources) and len(alternative_resources) == 0")],
+            "locals": {"resource": Opt(Ref("Resource"))}},
+        3: {"locals": {"res_scenario": Opt(Ref("ResourceScenario"))}},
+        4: {"inv": [
+            ("world", "World(self)"),
+            ("task", "TaskOk(self)"),
+            ("cursor-kept", "self.currentSlotIdx == old(self.currentSlotIdx) and self.slotStartOffset == old(self.slotStartOffset) "
+                            "and self.doneEffort == old(self.doneEffort)"),
+            ("attrs-kept", "TStart(self.property, self.scenarioIdx) == old(TStart(self.property, self.scenarioIdx)) and "
+                           "TEnd(self.property, self.scenarioIdx) == old(TEnd(self.property, self.scenarioIdx)) and "
+                           "attr(self.property, 'scheduled', self.scenarioIdx) == old(attr(self.property, 'scheduled', self.scenarioIdx))"),
+            ("gain", "total_effort_this_slot >= 0 and iff(booked_any, total_effort_this_slot > 0)"),
+            ("just-booked", "implies(booked_any, JustBooked(self))"),
+            ("distinct", "forall(a, 0, len(resources_to_book), forall(b, 0, len(resources_to_book), implies(a != b, "
+                         "resources_to_book[a] != resources_to_book[b])))"),
+            ("last-is-earlier", "implies(booked_any, exists(k, 0, _i, some(self._lastBookedResource) == resources_to_book[k]))"),
+            # instance of World needed by the next iteration, stated explicitly (keeps the solver's search small)
+            ("sep-next", "implies(booked_any and _i < len(resources_to_book), "
+                         "some(self._lastBookedResource) != resources_to_book[_i] and "
+                         "MyRS(self) != RSof(resources_to_book[_i], self.scenarioIdx) and "
+                         "RSsep(MyRS(self), RSof(resources_to_book[_i], self.scenarioIdx)))"),
+        ], "locals": {"effort_gained": Real, "total_effort_this_slot": Real, "booked_any": Bool}},
+    },
+    locals={"primary_resources": ResList, "alternative_resources": ResList, "total_effort_this_slot": Real},
+    modifies=_BR_FRAME + ["TaskScenario.doneEffort@self", "TaskScenario._lastBookedResource@self",
+                          "TaskScenario._lastBookedSlot@self", "TaskScenario._selectedResources@self",
+                          "TaskScenario._selectedAlternative@self", "@start@self.property"],
 )
